@@ -188,6 +188,11 @@ EXPLICIT = [
     (["BitsSwapped", ["Struct", [["n", B], ["d", ["Bytes", ["this", "n"]]]]]], {}),
     (["Struct", [["n", B], ["u", ["Union", 0, [["a", ["Bytes", ["this", "_", "n"]]], ["b", ["name", "Int16ub"]]]]]]], {}),
     (["LazyStruct", [["n", B], ["d", ["Prefixed", B, ["name", "GreedyBytes"]]], ["v", ["name", "VarInt"]]]], {}),
+    # deferred parsing with members skipped by their size BEHIND members that have to be read (every skip is a seek that can fail)
+    (["LazyStruct", [["n", B], ["d", ["Prefixed", B, ["name", "GreedyBytes"]]], ["v", ["name", "VarInt"]], ["w", ["name", "Int16ub"]], ["t", B]]], {}),
+    (["Struct", [["h", B], ["zs", ["LazyArray", 3, ["name", "Int16ub"]]], ["t", ["name", "Int16ub"]]]], {}),
+    (["Struct", [["h", B], ["z", ["Lazy", ["name", "Int32ub"]]], ["y", ["Lazy", ["Prefixed", B, ["name", "GreedyBytes"], False]]], ["t", B]]], {}),
+    (["LazyArray", 2, ["Prefixed", B, ["name", "GreedyBytes"], False]], {}),
     (["Struct", [["r", ["RawCopy", ["PascalString", B, "utf8"]]], ["c", ["Checksum", B, "sum8", ["this", "r", "data"]]]]], {}),
     (["FixedSized", 4, ["NullStripped", ["GreedyString", "utf_32_be"], tag(b"\x00\x00\x00\x00")]], {}),
     (["OffsettedEnd", -2, ["GreedyRange", ["name", "Int16ul"]]], {}),
@@ -498,6 +503,22 @@ def fault_runs(ctx, d, r, kw, absorbing, direction, data, v):
     if base[0] in ("foreign", "budget"):
         return                       # monitor (a)'s subject
     counts = dict(s0.counts)
+    if direction == "parse" and base[0] == "ok":
+        # a stream that can tell where it is but cannot seek at all (a pipe, a decompressor; seekable() says so from the start): the
+        # call either gives the result it gives on a seekable stream or raises StreamError - never another value
+        s1 = TracedStream(data + b"\x33\x44", budget=200000)
+        s1._noseek = True
+        ctx.ev()
+        r1 = outcome_stream(lambda: d.parse_stream(s1, **kw))
+        ctx.count("c_forward_only_stream_runs")
+        if r1[0] == "ok" and not veq(r1[1], base[1]):
+            ctx.violation("forward-only-stream-silently-wrong-result", "parse_stream on a stream that cannot seek returned %r, on a seekable stream %r" % (r1[1], base[1]),
+                          {"monitor": "c", "recipe": r, "kw": kw, "direction": direction, "fault": ["forward-only"], "input": tag(data), "value": None})
+            return
+        if r1[0] == "foreign":
+            ctx.violation("fault-foreign-exception:seek:%s" % r1[1], "parse_stream on a stream that cannot seek: foreign exception %s: %s" % (r1[1], r1[2]),
+                          {"monitor": "c", "recipe": r, "kw": kw, "direction": direction, "fault": ["forward-only"], "input": tag(data), "value": None})
+            return
     for op, kinds in FAULT_KINDS.items():
         for k in range(min(counts[op], 40)):
             for fk in kinds:
